@@ -232,6 +232,65 @@ fn swap_grid(r: &mut Runner, thorough: bool) {
     r.require(acc > 100, "C13 swap grid must contain accepted swaps");
 }
 
+/// second swap grid with differently shaped inputs: pool ids beyond 32 bits, denoms that differ only by
+/// case or contain slashes, allow-lists of up to three routes, candidates of up to four hops
+fn shape_grid(r: &mut Runner) {
+    let h = vec![
+        hop(1, "ibc/AB12CD", "uosmo"),
+        hop(1, "ibc/ab12cd", "uosmo"),
+        hop((1u64 << 32) + 1, "uosmo", "factory/osmo1xyz/Sub"),
+        hop(u64::MAX, "factory/osmo1xyz/sub", "ibc/AB12CD"),
+    ];
+    let rs = routes_upto(&h, 2);
+    let mut allow_lists: Vec<Vec<Vec<SwapRoute>>> = vec![vec![]];
+    for i in 0..rs.len() {
+        allow_lists.push(vec![rs[i].clone()]);
+        for j in (i + 1)..rs.len() {
+            allow_lists.push(vec![rs[i].clone(), rs[j].clone()]);
+            for k in (j + 1)..rs.len() {
+                allow_lists.push(vec![rs[i].clone(), rs[j].clone(), rs[k].clone()]);
+            }
+        }
+    }
+    let cands = routes_upto(&h, 4);
+    let trader = p20("trader");
+    let coins: Vec<(String, u128)> = ["ibc/AB12CD", "ibc/ab12cd", "uosmo", "factory/osmo1xyz/Sub", "factory/osmo1xyz/sub"].iter().map(|d| (d.to_string(), 3u128)).collect();
+    let res: Vec<(u64, u64, Vec<(Violation, Value)>)> = allow_lists
+        .par_iter()
+        .map(|allow| {
+            let Some(kv) = crate::own::try_treasury_kv(&p20("adm"), &trader, allow.clone()) else { return (0, 0, vec![]) };
+            let mut n = 0u64;
+            let mut acc = 0u64;
+            let mut vs = vec![];
+            for route in &cands {
+                for exact_in in [true, false] {
+                    for coin in &coins {
+                        let (ok, v) = swap_case(&kv, allow, &trader, &trader, exact_in, route, coin, 7);
+                        n += 1;
+                        acc += ok as u64;
+                        if let Some(v) = v {
+                            if vs.len() < 2 {
+                                vs.push(v);
+                            }
+                        }
+                    }
+                }
+            }
+            (n, acc, vs)
+        })
+        .collect();
+    let mut n = 0;
+    let mut acc = 0;
+    let mut viols: V = vec![];
+    for (a, b, v) in res {
+        n += a;
+        acc += b;
+        viols.extend(v);
+    }
+    r.grid(&format!("c13-shape-grid-{}allowlists(<=3 routes)-x-{}routes(<=4 hops)", allow_lists.len(), cands.len()), n, 2, acc, n - acc, vec![json!({"allow_list": [[h[0]]], "route": [h[1]], "note": "denoms differ only by case"})], viols);
+    r.require(acc > 100, "C13 shape grid must contain accepted swaps");
+}
+
 fn spend_grid(r: &mut Runner) {
     let kv = treasury_kv(&p20("adm"), &p20("trader"), vec![]);
     let osmo = p20("recv");
@@ -365,6 +424,7 @@ pub fn run(thorough: bool) -> i32 {
         "a protocol-chain / native-chain address is any checksum-valid bech32 string with prefix osmo / celestia (upper-case spelling included, as the Cosmos SDK accepts it)".into(),
     ];
     swap_grid(&mut r, thorough);
+    shape_grid(&mut r);
     spend_grid(&mut r);
     update_config_grid(&mut r);
     r.finish()
